@@ -15,6 +15,9 @@ def gen(rng, tier):
     lines, cases = [], []
     dss = [dp.Dataset("f0", [{b"a": b"1", b"b": b"x"}, {b"a": b"2"}, {}, {b"a": b"1", b"b": b"y"}], "tiny"),
            dp.shaped_dataset(rng, "f1", 300)]
+    if tier == "thorough":
+        dss += [dp.shaped_dataset(rng, "f2", 2500), dp.small_dataset(rng, "f3", hostile=True), dp.Dataset("f4", [], "empty")]
+        dss = [d for d in dss if not any(0 in c for r in d.rows for c in r)]
     k = 0
     for ds in dss:
         lines += ds.lines()
@@ -25,6 +28,14 @@ def gen(rng, tier):
                 for x in groups[a]:
                     for y in groups[b]:
                         combos.append([x, y])
+        if tier == "thorough":
+            for x in groups[0]:
+                for y in groups[1]:
+                    for z in groups[2] + ["emptyV1"]:
+                        combos.append([x, y, z])
+            for x in ["nobucket"]:
+                for y in SINGLE[2:]:
+                    combos.append([x, y])
         combos.append(["randS", "I5", "badVall"])
         combos.append(["noS", "noI"])
         if tier == "quick" and ds.did == "f1":
